@@ -414,7 +414,8 @@ class Categorize(Factory, Container):
         return not self == other
 
     def __hash__(self):
-        return hash((self.entries, self.quantity, tuple(sorted(self.bins.items()))))
+        # (categories may mix bool and str keys, which do not order: sort them by name)
+        return hash((self.entries, self.quantity, tuple(sorted(self.bins.items(), key=lambda kv: (str(kv[0]), str(type(kv[0])))))))
 
     @property
     def n_bins(self):
